@@ -1,9 +1,10 @@
 From Coq Require Import Extraction ExtrOcamlBasic.
 From PV Require Import Lib.ExtractBase Lib.Table Gen.GrpcStatusGen Gen.GrpcDialGen Model.GrpcStatus Model.GrpcCall Model.GrpcExample
-  Model.GrpcWire Model.GrpcWireExample Model.GrpcTime Model.GrpcTimeExample.
+  Model.GrpcWire Model.GrpcWireExample Model.GrpcTime Model.GrpcTimeExample Model.GrpcPool.
 Extraction Language OCaml.
 Extraction "extracted/C20_model.ml" xb_types grpc_code eff_timeout json_model json_spec scen_model scen_spec
   heap_of sguns_of wire_meta out_code fields_small reencode_c interp example_table parse_obj parse_t_c exec_t_c
   no_retry dial_policy gen_dial_options json_session json_session_spec reencode_guarded scen_codes scen_codes_spec
   scen_warm_up warm_up scen_timed scen_timed_spec json_timed json_timed_spec deadline_scope
-  gen_timeout_sites gen_invoke_call_options scope_or_default run_authorities.
+  gen_timeout_sites gen_invoke_call_options scope_or_default run_authorities
+  prun pinit vrun vinit shots_of extra_releases gen_instance_releases.
